@@ -15,22 +15,28 @@ Lens == CASE Pattern = "P322"  -> <<3, 2, 2>>
           [] Pattern = "P32"   -> <<3, 2>>
           [] Pattern = "P2222" -> <<2, 2, 2, 2>>
           [] Pattern = "P3222" -> <<3, 2, 2, 2>>
-AllCanon == <<"a", "b", "c", "d">>
+          [] Pattern = "P52"   -> <<5, 2>>
+          [] Pattern = "P25"   -> <<2, 5>>
+          [] Pattern = "P22222" -> <<2, 2, 2, 2, 2>>
+          [] Pattern = "P23232" -> <<2, 3, 2, 3, 2>>
+AllCanon == <<"a", "b", "c", "d", "e">>
 MCCanon == SubSeq(AllCanon, 1, Len(Lens))
 BaseSet == {MCCanon[i] : i \in DOMAIN MCCanon}
 LenOfBase(l) == Lens[CHOOSE i \in DOMAIN MCCanon : MCCanon[i] = l]
 
 \* subset letters: for base letter number i: multi (reordered), single, and (length 3) full permutation
-SubMulti  == [l \in BaseSet |-> CASE l = "a" -> "p" [] l = "b" -> "r" [] l = "c" -> "u" [] l = "d" -> "w"]
-SubSingle == [l \in BaseSet |-> CASE l = "a" -> "q" [] l = "b" -> "s" [] l = "c" -> "v" [] l = "d" -> "x"]
-SubFull   == [l \in BaseSet |-> CASE l = "a" -> "f" [] l = "b" -> "g" [] l = "c" -> "h" [] l = "d" -> "i"]
-SubsOf(l) == {SubMulti[l], SubSingle[l]} \cup (IF LenOfBase(l) = 3 THEN {SubFull[l]} ELSE {})
+SubMulti  == [l \in BaseSet |-> CASE l = "a" -> "p" [] l = "b" -> "r" [] l = "c" -> "u" [] l = "d" -> "w" [] l = "e" -> "y"]
+SubSingle == [l \in BaseSet |-> CASE l = "a" -> "q" [] l = "b" -> "s" [] l = "c" -> "v" [] l = "d" -> "x" [] l = "e" -> "z"]
+SubFull   == [l \in BaseSet |-> CASE l = "a" -> "f" [] l = "b" -> "g" [] l = "c" -> "h" [] l = "d" -> "i" [] l = "e" -> "j"]
+SubsOf(l) == {SubMulti[l], SubSingle[l]} \cup (IF LenOfBase(l) >= 3 THEN {SubFull[l]} ELSE {})
 
 MCItemsOf ==
     LET base == [l \in BaseSet |-> [k \in 1..LenOfBase(l) |-> k]]
-        multi == [l \in BaseSet |-> IF LenOfBase(l) = 3 THEN <<3, 1>> ELSE <<2, 1>>]
+        \* length 5: a block whose first and last item are len-1 apart but whose middle is permuted
+        multi == [l \in BaseSet |-> IF LenOfBase(l) = 5 THEN <<2, 4, 3, 5>> ELSE IF LenOfBase(l) = 3 THEN <<3, 1>> ELSE <<2, 1>>]
         single == [l \in BaseSet |-> <<2>>]
-        full == [l \in BaseSet |-> <<2, 3, 1>>]
+        \* length 5: first and last item len-1 apart with an item from outside the block in between
+        full == [l \in BaseSet |-> IF LenOfBase(l) = 5 THEN <<2, 1, 4>> ELSE <<2, 3, 1>>]
         letters == BaseSet \cup UNION {SubsOf(l) : l \in BaseSet}
     IN  [d \in letters |->
             IF d \in BaseSet THEN base[d]
